@@ -179,3 +179,22 @@ def readBlocks : Nat → List UInt8 → Option (List RawBlock)
                      else RawBlock.plain (payloadAndRest.take plen)) :: bs)
 
 end TantivyModel.SSTable
+
+namespace TantivyModel.SSTable
+open TantivyModel
+
+structure OpenedFile where
+  data : List UInt8
+  index : List UInt8
+  numTerms : Nat
+  version : Nat
+  deriving DecidableEq, Repr
+
+/-- mirrors: Dictionary::open — the last 20 bytes are `index_offset u64 | num_terms u64 |
+version u32`; the data blocks are `[0, index_offset)`, the index region what lies between -/
+def openFile (bytes : List UInt8) : OpenedFile :=
+  let foot := bytes.drop (bytes.length - Gen.SSTABLE_FOOTER_LEN)
+  let main := bytes.take (bytes.length - Gen.SSTABLE_FOOTER_LEN)
+  ⟨main.take (u64le foot), main.drop (u64le foot), u64le (foot.drop 8), u32le (foot.drop 16)⟩
+
+end TantivyModel.SSTable
